@@ -45,6 +45,10 @@ ConformChains   == Good => \A p \in Party : MatchChains(p, Last.st[p])
 ConformLogs     == Good => \A p \in Party : MatchLogs(p, Last.st[p])
 ConformNet      == Good => \A p \in Party : MatchNet(p, Last.st[p])
 
+\* which adds already carry a settle/fail that is still in the log (updateLog.modifiedHtlcs): guards against a
+\* second resolution of the same HTLC and against refusing the first one
+ConformMods == Good => \A p \in Party : JSet(Last.st[p].lmod) = Lmod[p] /\ JSet(Last.st[p].rmod) = Rmod[p]
+
 \* C02: a channel re-created from the database after *every* call equals Restored(p)
 MatchShadow(p, j) ==
   LET r == Restored(p) IN
@@ -74,6 +78,8 @@ ConformShadowChains   == Shadowed => \A p \in Party : LET r == Restored(p) j == 
                             PChain(r.LC) = JChain(j.LC) /\ PChain(r.RC) = JChain(j.RC)
 ConformShadowLogs     == Shadowed => \A p \in Party : LET r == Restored(p) j == Last.sh[p] IN
                             PLog(r.L) = JLog(j.L) /\ PLog(r.R) = JLog(j.R)
+ConformShadowMods     == Shadowed => \A p \in Party : LET r == Restored(p) j == Last.sh[p] IN
+                            JSet(j.lmod) = r.Lmod /\ JSet(j.rmod) = r.Rmod
 ConformShadow == Shadowed => \A p \in Party : MatchShadow(p, Last.sh[p])
 
 \* C01: conservation to the millisatoshi on every commitment either side holds (live and
